@@ -88,6 +88,15 @@ impl<T> OffsetSlice<T> {
         assert!(self.offset + self.length * size_of::<T>() <= buffer.len());
         unsafe { slice::from_raw_parts(buffer.as_ptr().add(self.offset).cast(), self.length) }
     }
+    /// Like [`Self::as_slice`], but for a buffer that is shared and modified through
+    /// interior mutability (atomics): no shared reference to the bytes is created.
+    ///
+    /// # Safety
+    /// `buffer` must be valid for `len` bytes for the lifetime `'a` and suitably aligned.
+    pub unsafe fn as_slice_raw<'a>(&self, buffer: *const u8, len: usize) -> &'a [T] {
+        assert!(self.offset + self.length * size_of::<T>() <= len);
+        unsafe { slice::from_raw_parts(buffer.add(self.offset).cast(), self.length) }
+    }
     pub fn as_slice_mut<'a>(&self, buffer: &'a mut [u8]) -> &'a mut [T] {
         assert!(self.offset + self.length * size_of::<T>() <= buffer.len());
         unsafe {
